@@ -237,7 +237,7 @@ static void logsys(const char *fmt, ...)
 	errno = saved;
 }
 #define ACTIVE() (logging && getpid() == server_pid)
-#define RES(r) ((r) < 0 ? ename(errno) : "0")
+#define RES(r) ((r) < 0 ? ename(errno) : "0")   /* "-<errno>" */
 
 static int fd_path(int fd, char *out, size_t n)
 {
@@ -477,19 +477,12 @@ mode_t __wrap_umask(mode_t m)
 
 static const char *ename(int e)
 {
+	/* errno as a number: "-39"; names would need a table shared with the model */
 	static char b[4][24];
 	static int i = 0;
-	switch (e) {
-	case 0: return "0";
-	case EACCES: return "EACCES"; case EAGAIN: return "EAGAIN"; case EPERM: return "EPERM";
-	case ENOENT: return "ENOENT"; case EEXIST: return "EEXIST"; case ENOTEMPTY: return "ENOTEMPTY";
-	case ENOTCONN: return "ENOTCONN"; case EPIPE: return "EPIPE"; case ECONNRESET: return "ECONNRESET";
-	case EINVAL: return "EINVAL"; case ENOMEM: return "ENOMEM"; case EBADF: return "EBADF";
-	case ESHUTDOWN: return "ESHUTDOWN"; case EIO: return "EIO"; case ECONNREFUSED: return "ECONNREFUSED";
-	case ENOTDIR: return "ENOTDIR"; case EBUSY: return "EBUSY"; case EMSGSIZE: return "EMSGSIZE";
-	}
+	if (e == 0) return "0";
 	i = (i + 1) % 4;
-	snprintf(b[i], sizeof b[i], "E%d", e);
+	snprintf(b[i], sizeof b[i], "-%d", e);
 	return b[i];
 }
 
@@ -844,6 +837,7 @@ int main(void)
 			cur_slot = -1;
 			r = qb_ipcs_run(svc);
 			printf("r %d\n", r);
+			printf("srv %d %d\n", (int)geteuid(), (int)getegid());
 		} else if (sscanf(line, "beh %d %d %d %o", &x1, &x2, &x3, &m) == 4) {
 			if (btail < MAXB) { struct beh e = { x1, 1, x2, x3, m }; btab[btail++] = e; }
 		} else if (sscanf(line, "beh %d", &x1) == 1) {
@@ -892,7 +886,6 @@ int main(void)
 			if (write(cl[s].to, "c", 1) != 1) { printf("connect %d dead\n", s); continue; }
 			rc = child_read_reply(s, 'C');
 			if (rc <= -9990) printf("connect %d no-reply\n", s);
-			else if (rc < 0 && rc > -200) printf("connect %d -%s\n", s, ename(-rc));
 			else printf("connect %d %d\n", s, rc);
 		} else if (sscanf(line, "req %d", &s) == 1 && s >= 0 && s < MAXS) {
 			int rc;
@@ -904,9 +897,15 @@ int main(void)
 			turn_slot(s);
 			printf("chan %d\n", chan_count());
 		} else if (strcmp(line, "tall") == 0) {
-			int i;
-			for (i = 0; i < ndent; i++) if (dtab[i].live && dtab[i].fd != listen_fd) run_entry(i);
-			run_jobs();
+			/* every connection's descriptors, connections in the order of their ordinals */
+			int i, o;
+			for (o = 0; o < ndirs; o++) {
+				for (i = 0; i < ndent; i++) {
+					if (dtab[i].live && dtab[i].fd != listen_fd && dtab[i].slot >= 0 &&
+					    cl[dtab[i].slot].conn_ord == o) run_entry(i);
+				}
+				run_jobs();
+			}
 			printf("chan %d\n", chan_count());
 		} else if (sscanf(line, "kill %d", &s) == 1 && s >= 0 && s < MAXS) {
 			reap(s);
